@@ -434,7 +434,7 @@ func TestC23(t *testing.T) {
 	run := ev.Start(t, "C23", "exploration",
 		"Histories = per round and host one of {absent, present+check passes, present+check fails}. Exhaustive families (every sequence up to the stated length): "+
 			"E9 two hosts with the full alphabet; E6 a subject host with the full alphabet next to a companion that is present(passing) or absent; "+
-			"E3 a subject host with the full alphabet next to an always-present companion (longer histories for larger Fails/Passes); E27 three hosts (thorough). Lengths: quick E9=4, E6=6, E3=9; thorough E9=4-5, E6=6 (more configs), E3=9-10 (more configs), E27=3. "+
+			"E3 a subject host with the full alphabet next to an always-present companion (longer histories for larger Fails/Passes); E27 three hosts (thorough). Lengths: quick E9=4 (7 settings), E6=4-5, E3=7; thorough E9=4-5, E6=6 (more configs), E3=9-10 (more configs), E27=3. "+
 			"Fails/Passes range over 1..4. Plus PRNG streaky histories with 1-4 hosts, length 6-14. The real Filter.Run result is compared with the model after every round. "+
 			"A history is non-trivial when, in the model, some host changed health state or some host left and rejoined.")
 	defer run.Finish()
@@ -452,6 +452,9 @@ func TestC23(t *testing.T) {
 	quick := run.Quick()
 	for f := 1; f <= 4; f++ {
 		for p := 1; p <= 4; p++ {
+			if quick && !((f <= 2 && p <= 2) || (f == 3 && p <= 3 && p >= 2) || (f == 2 && p == 3)) {
+				continue
+			}
 			l := 4
 			if !quick && ((f <= 2 && p <= 2) || (f == 3 && p == 2) || (f == 2 && p == 3)) {
 				l = 5
@@ -469,6 +472,12 @@ func TestC23(t *testing.T) {
 				continue
 			}
 			l := 6
+			if quick {
+				l = 4
+				if f == p {
+					l = 5
+				}
+			}
 			enums = append(enums, &enumeration{"E6-subject+optional-companion", two, [][]uint8{full, passOrNo}, l, f, p})
 		}
 	}
@@ -480,6 +489,9 @@ func TestC23(t *testing.T) {
 				continue
 			}
 			l := 9
+			if quick {
+				l = 7
+			}
 			if !quick && f == 3 && (p == 2 || p == 3) {
 				l = 10
 			}
@@ -491,7 +503,7 @@ func TestC23(t *testing.T) {
 			enums = append(enums, &enumeration{"E27-three-hosts", three, [][]uint8{full, full, full}, 3, fp[0], fp[1]})
 		}
 	}
-	nRandom := run.N(20000, 100000)
+	nRandom := run.N(5000, 100000)
 
 	ag := &agg{count: map[string]int{}, witnesses: map[string][]wit{}}
 	replay := run.ReplayCase()
